@@ -133,6 +133,13 @@ class C15(core.Prop):
                 for p in perms:
                     # the base graph must stay connected as a chain of the fragments that share a descriptor
                     out.append({'mol': nm, 'frag': fi, 'order': list(p)})
+        # the other constructors / drivers (pipeline.VARIANTS) for the fragments listed in writing order
+        # (not the variants that build the base graph in another order: that is the recorded finding
+        # C15-ez-class-depends-on-fragment-order seen through another door - the class follows the order in which the
+        # fragments are merged)
+        vs = [k for k, v in enumerate(pl.VARIANTS) if k and not str(v.get('entry', '')).startswith('graph')]
+        for i, sh in enumerate([s_ for s_ in out if s_['order'] == sorted(s_['order'])]):
+            out.append(dict(sh, variant=vs[i % len(vs)]))
         for i in range(len(LITERAL)):
             out.append({'mode': 'literal', 'idx': i})
         return out
@@ -211,7 +218,7 @@ class C15(core.Prop):
                 'slashes': slashes, 'chir': xl}
 
     def execute(self, M, shape, inp):
-        return [core.guard(pl.run_resolver, M, inp['text']), core.guard(pl.run_resolver, M, inp['uncut'])]
+        return [core.guard(pl.run_variant, M, inp['text'], pl.VARIANTS[shape.get('variant', 0)]), core.guard(pl.run_resolver, M, inp['uncut'])]
 
     def oracle(self, shape, inp, obs):
         cut, uncut = obs
